@@ -1,24 +1,22 @@
-SPECIFICATION GSpec
+SPECIFICATION CSpecByGen
 CONSTANTS
-  Forms <- GAllForms
-  Indents <- GInd012
+  Forms <- CAllForms
+  Indents <- CInd012
   MaxIdAnns = 2
   MaxParams = 2
   MaxParamAnns = 2
   MaxPartLines = 2
   MaxDescLines = 2
   MaxParas = 2
-  MaxTags = 2
-  TagNames <- GTagsAll
+  MaxTags = 3
+  TagNames <- CTagsAll
   MaxTagAnns = 2
   MaxCont = 2
   MaxNoise = 1
   AtReturns = TRUE
-  FaultKinds <- GNoFaults
-  MaxFaults = 0
+  FaultKinds <- CAllFaults
+  MaxFaults = 1
   KeepLines = TRUE
-  Known <- GKnown
+  Known <- CKnown
   StartLine = 1
 CHECK_DEADLOCK FALSE
-INVARIANT RoundTrip
-INVARIANT WriterFix
